@@ -17,6 +17,7 @@ import (
 	"testing"
 
 	"github.com/daeuniverse/dae/common/consts"
+	"github.com/daeuniverse/dae/pkg/trie"
 	"github.com/sirupsen/logrus"
 	"github.com/v2rayA/ahocorasick-domain"
 )
@@ -144,7 +145,7 @@ var c11LongSizes = []int{52, 60, 63, 64, 65, 70, 120, 127, 128, 129, 140, 250, 2
 
 // mostly 52..260 bytes, now and then ~1 000 or ~4 100
 func c11LongSize(r *VRand) int {
-	if r.Chance(0.04) {
+	if r.Chance(0.02) {
 		return c11LongSizes[len(c11LongSizes)-1-r.Intn(2)]
 	}
 	return c11LongSizes[r.Intn(len(c11LongSizes)-2)]
@@ -514,8 +515,13 @@ func c11RunSession(st *VStream, stats *VStats, r *VRand, bitLen int, nsets int, 
 			name = []string{"", ".", "..", "a", "com", "a.", ".a"}[r.Intn(7)]
 			stats.Inc("dm.probe.degenerate")
 		case 14: // a long sub-name of the pattern: many labels or 63-byte labels in front
-			name = c11LongName(r, c11LongSize(r)) + "." + bare
-			stats.Inc("dm.probe.long_subname")
+			if r.Bool() {
+				name = c11LongName(r, c11LongSize(r)) + "." + bare
+				stats.Inc("dm.probe.long_subname")
+			} else {
+				name = c11Label(r) + "." + bare
+				stats.Inc("dm.probe.subname")
+			}
 		case 15: // a long glued prefix (no label boundary)
 			name = c11LongLabel(r, c11LongSize(r)) + bare
 			stats.Inc("dm.probe.long_glued")
@@ -621,6 +627,27 @@ func c11BigSession(st *VStream, stats *VStats, r *VRand, nSuffix, nFull int) {
 	}
 	ss.add(st, 63, "keyword", []string{"zzqq", "^ad", ".gov$"})
 	c11Max(stats, "dm.set.size.max", nSuffix)
+	{ // nodes of the suffix set's trie = distinct suffixes of "."+p and "^"+p (64-bit hashes)
+		seen := map[uint64]struct{}{}
+		for _, p := range suf {
+			heads := []byte{'.', '^'}
+			if strings.HasPrefix(p, ".") {
+				heads = []byte{0}
+			}
+			for _, hd := range heads {
+				q := p
+				if hd != 0 {
+					q = string(hd) + p
+				}
+				h := uint64(14695981039346656037)
+				for i := len(q) - 1; i >= 0; i-- {
+					h = (h ^ uint64(q[i])) * 1099511628211
+					seen[h] = struct{}{}
+				}
+			}
+		}
+		c11Max(stats, "dm.trie.nodes.max", len(seen)+1)
+	}
 	stats.Inc("dm.session.big")
 	if ss.build(st, stats) != nil {
 		return
@@ -763,8 +790,11 @@ func TestVerifC11Matcher(t *testing.T) {
 	defer st.Close()
 
 	// the real tables the model hard-codes
-	st.Emit("alpha d", "valid="+c11ValidSet(ValidDomainChars.IsValidChar)+" | order=-")
-	st.Emit("alpha ac", "valid="+c11ValidSet(ahocorasick.IsValidChar)+" | order=-")
+	// (Size() == number of valid bytes  <=>  the table was built from a duplicate-free byte list, which is
+	// what makes the model's first-occurrence code and Go's last-write code the same function)
+	st.Emit("alpha d", fmt.Sprintf("valid=%s | n=%d order=-", c11ValidSet(ValidDomainChars.IsValidChar), ValidDomainChars.Size()))
+	st.Emit("alpha c", fmt.Sprintf("valid=%s | n=%d order=-", c11ValidSet(trie.ValidCidrChars.IsValidChar), trie.ValidCidrChars.Size()))
+	st.Emit("alpha ac", fmt.Sprintf("valid=%s | n=%d order=-", c11ValidSet(ahocorasick.IsValidChar), ahocorasick.N))
 
 	sessions, maxPat, nq := 120, 2000, 100
 	if VThorough() {
